@@ -3,6 +3,7 @@ package exporter
 import (
 	"encoding/json"
 	"errors"
+	"sort"
 	"strconv"
 	"strings"
 
@@ -108,7 +109,15 @@ func (s *OpenAPI3Exporter) GenerateOpenAPI3(app *syslwrapper.App) (*openapi3.T, 
 		operation.Description = v.Description
 		operation.Summary = v.Summary
 		operation.Extensions = v.Extensions
-		for paramName, paramItem := range v.Params {
+		// Parameters and responses are added in name order: `parameters` is a list, and two responses that parse
+		// to the same status code replace one another.
+		paramNames := make([]string, 0, len(v.Params))
+		for paramName := range v.Params {
+			paramNames = append(paramNames, paramName)
+		}
+		sort.Strings(paramNames)
+		for _, paramName := range paramNames {
+			paramItem := v.Params[paramName]
 			var param *openapi3.Parameter
 			var payload *openapi3.SchemaRef
 			switch paramItem.In {
@@ -136,7 +145,13 @@ func (s *OpenAPI3Exporter) GenerateOpenAPI3(app *syslwrapper.App) (*openapi3.T, 
 		}
 
 		// Map Responses
-		for _, value := range v.Response {
+		responseNames := make([]string, 0, len(v.Response))
+		for responseName := range v.Response {
+			responseNames = append(responseNames, responseName)
+		}
+		sort.Strings(responseNames)
+		for _, responseName := range responseNames {
+			value := v.Response[responseName]
 			response := openapi3.NewResponse()
 			schemaRef := s.exportType(value.Type)
 			response.WithDescription(value.Name)
@@ -199,6 +214,7 @@ func (s *OpenAPI3Exporter) exportType(t *syslwrapper.Type) *openapi3.SchemaRef {
 				required = append(required, k)
 			}
 		}
+		sort.Strings(required)
 		value.Required = required
 	case "ref":
 		ref = SyslRefToJSONSchema(t.Reference)
@@ -213,8 +229,14 @@ type validInputs struct {
 
 func convertEnum(syslEnum map[int64]string) validInputs {
 	enums := validInputs{}
-	for _, str := range syslEnum {
-		enums.Data = append(enums.Data, str)
+	// enum names are listed in the order of their numeric values
+	values := make([]int64, 0, len(syslEnum))
+	for value := range syslEnum {
+		values = append(values, value)
+	}
+	sort.Slice(values, func(i, j int) bool { return values[i] < values[j] })
+	for _, value := range values {
+		enums.Data = append(enums.Data, syslEnum[value])
 	}
 	return enums
 }
